@@ -446,9 +446,19 @@ def conflict_configs():
                     for sig in itertools.product((False, True), repeat=3 if oc else 1):
                         for mutex in (False, True):
                             yield oa, ob, oc, cons, sig, mutex
+                        if not cons and oc:
+                            # no data consumption (so the rule does not depend on which producer a consumer is wired to): every
+                            # choice of the exclusive pair and every order of the producers in the node list
+                            for mutex in (False, "ab", "ac", "bc"):
+                                for perm in itertools.permutations(range(3)):
+                                    if perm == (0, 1, 2) and mutex in (False, "ab"):
+                                        continue
+                                    yield oa, ob, oc, cons, sig, mutex, perm
 
 
-def conflict_program(oa, ob, oc, cons, sig, mutex):
+def conflict_program(oa, ob, oc, cons, sig, mutex, perm=None):
+    if mutex is True:
+        mutex = "ab"
     sab = sig[0]
     sac = sig[1] if oc else False
     sbc = sig[2] if oc else False
@@ -457,12 +467,14 @@ def conflict_program(oa, ob, oc, cons, sig, mutex):
     nodes = [A, B]
     if oc:
         nodes.append(T.fn("pc", ["e0"], list(oc), wait_for=[s for s, on in (("s_ac", sac), ("s_bc", sbc)) if on]))
+    if perm is not None:
+        nodes = [nodes[i] for i in perm]
     if mutex:
-        nodes.insert(0, T.ifelse("gt", ["e0"], "pa", "pb"))
+        nodes.insert(0, T.ifelse("gt", ["e0"], "p" + mutex[0], "p" + mutex[1]))
     return T.prog(nodes)
 
 
-def conflict_expected(oa, ob, oc, cons, sig, mutex, all_producer_edges=False):
+def conflict_expected(oa, ob, oc, cons, sig, mutex, perm=None, all_producer_edges=False):
     """Valid iff every two producers of one name are exclusive branches or ordered by a dependency that does
     not itself rest on a name both of them produce.  The consumer pb is wired to the FIRST producer of a name
     (pa); ``all_producer_edges`` additionally counts a dependency on every other producer of a consumed name
@@ -509,14 +521,17 @@ def conflict_expected(oa, ob, oc, cons, sig, mutex, all_producer_edges=False):
         return seen
 
     branch = {}
+    if mutex is True:
+        mutex = "ab"
     if mutex:
-        da, db = desc("pa"), desc("pb")
-        branch = {"pa": da - db, "pb": db - da}
+        t1, t2 = "p" + mutex[0], "p" + mutex[1]
+        da, db = desc(t1), desc(t2)
+        branch = {t1: da - db, t2: db - da}
     prods = [p for p in ("pa", "pb", "pc") if outs[p]]
     for n in multi:
         ps = [p for p in prods if n in outs[p]]
         for a, b in itertools.combinations(ps, 2):
-            if mutex and ((a in branch["pa"] and b in branch["pb"]) or (a in branch["pb"] and b in branch["pa"])):
+            if mutex and ((a in branch[t1] and b in branch[t2]) or (a in branch[t2] and b in branch[t1])):
                 continue
             if not (reach(a, b, (a, b)) or reach(b, a, (a, b))):
                 return False
@@ -536,12 +551,85 @@ def conflict_part(acc, which, total):
             acc.observations["constructor rejects a producer configuration the reference rule considers ordered/exclusive (conservative, not judged)"] += 1
             continue
         if st == "other-exception" or (st == "accepted") != exp:
-            oa, ob, oc, cons, sig, mutex = cfg
+            oa, ob, oc, cons, sig, mutex = cfg[:6]
+            perm = cfg[6] if len(cfg) > 6 else None
             feature = "ordered-only-via-a-non-first-producer-of-a-consumed-name" if (st == "accepted" and conflict_expected(*cfg, all_producer_edges=True)) else "other"
             acc.violation(
                 {"symptom": "producer-conflict-verdict", "expected_valid": exp, "got": st, "feature": feature},
-                {"kind": "conflict", "cfg": [list(oa), list(ob), list(oc), list(cons), list(sig), mutex]},
-                f"producers pa->{oa} pb->{ob} pc->{oc}, pb consumes {cons}, signals ab/ac/bc={sig}, pa/pb exclusive={mutex}: constructor says {st} ({msg}), rule says {'valid' if exp else 'conflict'}",
+                {"kind": "conflict", "cfg": [list(oa), list(ob), list(oc), list(cons), list(sig), mutex] + ([list(perm)] if perm is not None else [])},
+                f"producers pa->{oa} pb->{ob} pc->{oc}, pb consumes {cons}, signals ab/ac/bc={sig}, exclusive pair={mutex}, node-list order of the producers={perm}: constructor says {st} ({msg}), rule says {'valid' if exp else 'conflict'}",
+            )
+
+
+# ---------------------------------------------------------------- (a'') exclusivity is per gate: two gates, producers in any branches
+def twogate_configs():
+    """Two if/else gates g1 -> (t1 | t2), g2 -> (t3 | t4) and a free node t5; every subset (>= 2) of the five nodes produces the
+    name x; optionally one ordering signal between two of the producers; gates listed first or last."""
+    names = ["t1", "t2", "t3", "t4", "t5"]
+    for r in (2, 3):
+        for S in itertools.combinations(names, r):
+            for sig in [None] + [(a, b) for a in S for b in S if a != b]:
+                for gates_first in (True, False):
+                    yield S, sig, gates_first
+
+
+def twogate_program(S, sig, gates_first):
+    nodes = []
+    for t in ["t1", "t2", "t3", "t4", "t5"]:
+        kw = {}
+        if sig and sig[0] == t:
+            kw["emit"] = ["s_ord"]
+        if sig and sig[1] == t:
+            kw["wait_for"] = ["s_ord"]
+        nodes.append(T.fn(t, ["e0"], ["x"] if t in S else ["o_" + t], **kw))
+    gates = [T.ifelse("g1", ["e0"], "t1", "t2"), T.ifelse("g2", ["e0"], "t3", "t4")]
+    return T.prog(gates + nodes if gates_first else nodes + gates)
+
+
+def twogate_expected(S, sig, gates_first):
+    edges = {sig} if sig else set()
+
+    def desc(a):
+        seen, todo = {a}, [a]
+        while todo:
+            u = todo.pop()
+            for (p_, q) in edges:
+                if p_ == u and q not in seen:
+                    seen.add(q)
+                    todo.append(q)
+        return seen
+
+    groups = []
+    for l, r_ in (("t1", "t2"), ("t3", "t4")):
+        dl, dr = desc(l), desc(r_)
+        groups.append((dl - dr, dr - dl))
+    for a, b in itertools.combinations(S, 2):
+        if any((a in bl and b in br) or (a in br and b in bl) for bl, br in groups):
+            continue
+        if b in desc(a) or a in desc(b):
+            continue
+        return False
+    return True
+
+
+def twogate_part(acc, which, total):
+    for i, cfg in enumerate(twogate_configs()):
+        if i % total != which:
+            continue
+        exp = twogate_expected(*cfg)
+        st, msg = try_build(twogate_program(*cfg))
+        acc.evaluations += 1
+        acc.key(("twogate", cfg))
+        acc.outcomes[("twogate", exp, st)] += 1
+        if st == "config-error" and exp:
+            acc.observations["constructor rejects a two-gate producer configuration the reference rule considers ordered/exclusive (conservative, not judged)"] += 1
+            continue
+        if st == "other-exception" or (st == "accepted") != exp:
+            S, sig, gf = cfg
+            acc.violation(
+                {"symptom": "producer-conflict-verdict", "expected_valid": exp, "got": st, "feature": "two-gates"},
+                {"kind": "twogate", "cfg": [list(S), list(sig) if sig else None, gf]},
+                f"gates g1->(t1|t2), g2->(t3|t4), free t5; producers of x: {S}, ordering signal {sig}, gates listed {'first' if gf else 'last'}: constructor says {st} ({msg}), rule says {'valid' if exp else 'conflict'}",
             )
 
 
@@ -551,6 +639,7 @@ def shards(tier, seed):
     k = 24 if tier == "quick" else 64
     out += [(tier, seed, "types", i, k) for i in range(k)]
     out += [(tier, seed, "conflict", i, 16) for i in range(16)]
+    out += [(tier, seed, "twogate", i, 4) for i in range(4)]
     return out
 
 
@@ -561,6 +650,8 @@ def run_shard(shard):
         flaw_part(acc, i, k)
     elif part == "conflict":
         conflict_part(acc, i, k)
+    elif part == "twogate":
+        twogate_part(acc, i, k)
     else:
         types_part(acc, tier, i, k)
     return acc
@@ -583,9 +674,14 @@ def replay(rep):
             return [] if is_type_compatible(a, b) == exp else [f"verdict differs for {a!r} -> {b!r}"]
         st, _ = try_build(_chain_with(a, b, rep["pos"]))
         return [] if (st == "accepted") == exp else [f"strict graph verdict differs for {a!r} -> {b!r}"]
+    if rep["kind"] == "twogate":
+        c = rep["cfg"]
+        cfg = (tuple(c[0]), tuple(c[1]) if c[1] else None, c[2])
+        st, msg = try_build(twogate_program(*cfg))
+        return [] if (st == "accepted") == twogate_expected(*cfg) and st != "other-exception" else [f"two-gate conflict verdict {st} {msg}"]
     if rep["kind"] == "conflict":
         c = rep["cfg"]
-        cfg = (tuple(c[0]), tuple(c[1]), tuple(c[2]), tuple(c[3]), tuple(c[4]), c[5])
+        cfg = (tuple(c[0]), tuple(c[1]), tuple(c[2]), tuple(c[3]), tuple(c[4]), c[5]) + ((tuple(c[6]),) if len(c) > 6 else ())
         st, msg = try_build(conflict_program(*cfg))
         return [] if (st == "accepted") == conflict_expected(*cfg) and st != "other-exception" else [f"conflict verdict {st} {msg}"]
     name = rep["base"]
